@@ -17,7 +17,7 @@
    whose flatten returns bits without touching the memory (variables,
    numerals; their bits are given), the guard of an ite is a Boolean-scope
    node whose flatten returns one formula.  No proofs here (ThreadProofs.v). *)
-From Coq Require Import String ZArith List Bool.
+From Coq Require Import String Ascii ZArith List Bool.
 From Omega Require Import L1Circuits.Circuits L1Circuits.Deep L1Circuits.PyBits
   L2Compile.Expr L2Compile.Emit.
 Import ListNotations.
@@ -26,9 +26,77 @@ Inductive pnode := PNode (cls op : string) (args : list pnode).
 
 (* what a flatten method returns: a formula (str), bits (list) or a buffer
    text (str starting with $) *)
-Inductive fres := RStr (b : bx) | RBits (l : list bx) | RBuf (f : fbuf).
+(* a Boolean-scope formula: formulas of Deep.bx and buffer texts under the
+   propositional operators of prefix syntax (a buffer is not a Deep.bx) *)
+Inductive px :=
+| PB (b : bx)
+| PBuf (f : fbuf)
+| PNot (a : px)
+| PAnd (a b : px)
+| POr (a b : px)
+| PXor (a b : px).
+
+Inductive fres := RStr (b : bx) | RBits (l : list bx) | RBuf (f : fbuf) | RForm (p : px).
 
 Definition is_bits (r : fres) : bool := match r with RBits _ => true | _ => false end.
+
+(* a flatten result used as a formula (isinstance(x, str)) *)
+Definition px_of_fres (r : fres) : option px :=
+  match r with
+  | RStr b => Some (PB b)
+  | RBuf f => Some (PBuf f)
+  | RForm p => Some p
+  | RBits _ => None
+  end.
+
+(* an operator prefix kept in a Python string at run time (a value of
+   Nodes.opmap such as "&", "| !", "! ^") applied to the formulas written
+   after it: " {op} {x} {y} " *)
+Inductive ptok := TNot | TAnd | TOr | TXor | THole (i : nat) | TBad.
+
+Definition ptok_of_string (s : string) : ptok :=
+  if String.eqb s "!" then TNot else if String.eqb s "&" then TAnd
+  else if String.eqb s "|" then TOr else if String.eqb s "^" then TXor else TBad.
+
+Fixpoint split_blank (s acc : string) : list string :=
+  match s with
+  | EmptyString => if String.eqb acc "" then [] else [acc]
+  | String c r =>
+      if Ascii.eqb c " "
+      then (if String.eqb acc "" then [] else [acc]) ++ split_blank r ""
+      else split_blank r (acc ++ String c EmptyString)
+  end.
+
+Fixpoint parse_px (fuel : nat) (toks : list ptok) (holes : list px)
+  : option (px * list ptok) :=
+  match fuel with
+  | O => None
+  | S f =>
+      match toks with
+      | [] => None
+      | THole i :: r => match nth_error holes i with Some p => Some (p, r) | None => None end
+      | TNot :: r =>
+          match parse_px f r holes with Some (a, r') => Some (PNot a, r') | None => None end
+      | TBad :: _ => None
+      | tk :: r =>
+          match parse_px f r holes with
+          | Some (a, r1) =>
+              match parse_px f r1 holes with
+              | Some (b, r2) =>
+                  Some (match tk with TAnd => PAnd a b | TOr => POr a b | _ => PXor a b end, r2)
+              | None => None
+              end
+          | None => None
+          end
+      end
+  end.
+
+Definition py_apply_prefix (op : string) (args : list px) : option px :=
+  let toks := map ptok_of_string (split_blank op "") ++ map THole (seq 0 (length args)) in
+  match parse_px (2 * length toks + 2) toks args with
+  | Some (p, []) => Some p
+  | _ => None
+  end.
 
 Inductive anode :=
 | ALeaf (u : pnode) (bits : list bx)
